@@ -331,3 +331,90 @@ func AllStrings(T, L int, f func(w string)) {
 		rec(n)
 	}
 }
+
+// TMOpts controls ToTM.
+type TMOpts struct {
+	Name    string   // package scratch/<Name>
+	Options []string // extra option lines, e.g. `optimizeTables = true`
+	Events  bool     // annotate every rule with -> R<ruleIndex> (eventBased = true is added)
+	Space   bool     // add a (space) rule for ' '
+	Parser  string   // text after ":: parser" on the same line, e.g. "lalr(2)"
+	Extra   string   // extra parser-section text placed before the rules
+}
+
+// ToTM prints g as a textmapper grammar for the Go target. Terminals are one-letter lexer
+// rules (ta: /a/), so a token sequence is a string. Rules are grouped by nonterminal in
+// order of first appearance; RuleOrder returns the resulting order (tm rule index -> index in g.Rules).
+func (g *Gram) ToTM(inputs []Input, o TMOpts) string {
+	var sb strings.Builder
+	fmt.Fprintf(&sb, "language %s(go);\n\npackage = \"scratch/%s\"\n", o.Name, o.Name)
+	if o.Events {
+		sb.WriteString("eventBased = true\n")
+	}
+	for _, l := range o.Options {
+		sb.WriteString(l)
+		sb.WriteString("\n")
+	}
+	sb.WriteString("\n:: lexer\n\n")
+	if o.Space {
+		sb.WriteString("WhiteSpace: /[ ]+/ (space)\n")
+	}
+	for t := 1; t <= g.T; t++ {
+		fmt.Fprintf(&sb, "%s: /%c/\n", g.SymName(t), TermChar(t))
+	}
+	fmt.Fprintf(&sb, "\n:: parser %s\n\n%%input ", o.Parser)
+	for i, in := range inputs {
+		if i > 0 {
+			sb.WriteString(", ")
+		}
+		sb.WriteString(g.SymName(in.NT))
+		if !in.Eoi {
+			sb.WriteString(" no-eoi")
+		}
+	}
+	sb.WriteString(";\n\n")
+	sb.WriteString(o.Extra)
+	for _, nt := range g.NTOrder() {
+		fmt.Fprintf(&sb, "%s :\n", g.SymName(nt))
+		first := true
+		for i, r := range g.Rules {
+			if r.LHS != nt {
+				continue
+			}
+			if first {
+				sb.WriteString("    ")
+				first = false
+			} else {
+				sb.WriteString("  | ")
+			}
+			if len(r.RHS) == 0 {
+				sb.WriteString("%empty")
+			}
+			for j, s := range r.RHS {
+				if j > 0 {
+					sb.WriteString(" ")
+				}
+				sb.WriteString(g.SymName(s))
+			}
+			if o.Events {
+				fmt.Fprintf(&sb, " -> R%d", i)
+			}
+			sb.WriteString("\n")
+		}
+		sb.WriteString(";\n\n")
+	}
+	return sb.String()
+}
+
+// NTOrder lists the defined nonterminals in order of their first rule.
+func (g *Gram) NTOrder() []int {
+	var out []int
+	seen := map[int]bool{}
+	for _, r := range g.Rules {
+		if !seen[r.LHS] {
+			seen[r.LHS] = true
+			out = append(out, r.LHS)
+		}
+	}
+	return out
+}
